@@ -60,6 +60,7 @@ def check(ctx):
     ctx.rule('C14.H4', 'every placement-new fits its buffer')
     ctx.rule('C14.H5', 'handle index and list slot come from the same PrototypeInfo')
     ctx.rule('C14.M', 'no use-after-move in heterogeneous dispatch / enqueue')
+    ctx.rule('C14.H6', 'every PrototypeInfo used by a member function matches the prototype list entry at its index')
     ctx.rule('C14.F', 'heterogeneous dispatcher: lookup and listener management map onto the per-event heterogeneous list; list-level remove / empty / forEach route by handle index')
     ctx.rule('C14.Q', 'heterogeneous queue: slot protocol and FIFO positions (exactly once, in place)')
     ctx.rule('C14.V', 'dispatch hands the caller\'s value categories on to the prototype selection')
@@ -68,6 +69,7 @@ def check(ctx):
         info = TUInfo(tu)
         run_slot_rules(ctx, 'C14.Q', 'C14.Q', tu, only_kinds=('O-', 'P-'), classes=('HeterEventQueueBase',))
         check_value_categories(ctx, tu)
+        check_protoinfo_coherence(ctx, tu)
         from .c04 import check_listener_management
         check_listener_management(ctx, tu, 'HeterEventDispatcherBase', 'C14.F')
         check_heter_list_ops(ctx, tu, info)
@@ -89,6 +91,7 @@ def check(ctx):
     ctx.require_min('C14.H5', 3)
     ctx.require_min('C14.M', 5)
     ctx.require_min('C14.Q', 4)
+    ctx.require_min('C14.H6', 4)
     ctx.require_min('C14.F', 6)
     ctx.require_min('C14.V', 2)
     gen = os.path.join(extract.VERIF, 'witness', 's_heter_gen.cpp')
@@ -99,6 +102,47 @@ def check(ctx):
     if ctx.tier == 'thorough' and os.path.exists(big):
         witness.check_static_unit(ctx, 'C14.H1', big, 'first-match selection (large family)')
     witness.check_fail_unit(ctx, 'C14.H1', os.path.join(extract.VERIF, 'witness', 'f_heter.cpp'), 'no matching prototype')
+
+
+def check_protoinfo_coherence(ctx, tu):
+    """H6: every PrototypeInfo a heterogeneous member function is instantiated with is coherent with the class's prototype list:
+    index i >= 0  =>  Prototype is the i-th listed prototype and ArgsTuple its cv/ref-stripped parameter tuple. (The stored tag is
+    compared with PrototypeInfo::index and the slot is viewed as QueuedItem<PrototypeInfo::ArgsTuple>: an incoherent PrototypeInfo makes
+    events of one prototype be examined, and reinterpreted, as another.)"""
+    LIST_ARG = {'HeterEventQueueBase': 1, 'HeterEventDispatcherBase': 1, 'HeterCallbackListBase': 0}
+    for f in tu.fns:
+        cls = f.cls.split('::')[0]
+        if cls not in LIST_ARG or f.kind == 'lambda':
+            continue
+        pi_t = fn_targ(f, 0)
+        if pi_t is None:
+            continue
+        t = tu.type(pi_t)
+        if not t or not t.get('recq') or 'FindPrototype' not in t['recq']:
+            continue
+        c = tu.class_by_q.get(t['recq'])
+        if not c:
+            continue
+        idx = c['enums'].get('index')
+        if idx is None or idx < 0:
+            continue
+        ct = tu.type(f.d.get('clst'))
+        ta = (ct or {}).get('targs') or []
+        k = LIST_ARG[cls]
+        lt = tu.type(ta[k]) if k < len(ta) and isinstance(ta[k], int) else None
+        protos = []
+        for x in (lt or {}).get('targs', []):
+            if isinstance(x, int):
+                protos.append(tu.tstr(x))
+            elif isinstance(x, list):
+                protos.extend(tu.tstr(y) for y in x if isinstance(y, int))
+        proto = tu.tstr(c['typedefs'].get('Prototype')) if c['typedefs'].get('Prototype') is not None else None
+        ok = idx < len(protos) and proto == protos[idx]
+        ctx.ob('C14.H6', f, 'PrototypeInfo is coherent: its Prototype is the prototype listed at its index', ok,
+               detail='%s is instantiated with a PrototypeInfo whose index is %d but whose Prototype is `%s`; the prototype listed at index %d is `%s`: '
+                      'events stored with tag %d are examined with the wrong prototype\'s argument types'
+                      % (f.skey, idx, proto, idx, protos[idx] if idx < len(protos) else '?', idx),
+               key_detail='incoherent PrototypeInfo')
 
 
 def check_value_categories(ctx, tu):
